@@ -356,7 +356,7 @@ def run_terms(snap):
     he, hekwh = R.series('he', R.sp('HeatExtracted')), R.series('hekwh', R.sp('HeatkWhExtracted'))
     pumpkwh, rem = R.series('pumpkwh', R.sp('PumpingkWh')), R.series('rem', R.sp('RemainingReservoirHeatContent'))
     offs_e, offs_h, why = _offsets(s, life, eu)
-    R.findings = why
+    R.findings, R.offs = why, (offs_e[0] if offs_e else 0.0, offs_h[0] if offs_h else 0.0)
     zeros, offe, offh = R.series('zeros', [0.0] * life), R.series('offe', offs_e), R.series('offh', offs_h)
     R.clause('extracted', f'check_extracted {T} {q(n)} {q(m)} {q(cp)} {q(tinj)} {tprod} {he}')
     dh = R.cls == 'SurfacePlantDistrictHeating'
@@ -497,17 +497,18 @@ def gen_runs(ctx):
     lives = [1, 2, 3, 7] if ctx.quick else [1, 2, 3, 7, 30, 100]
     cells = [(eu, pl) for eu in configs.ENDUSES for pl in (configs.ELEC_PLANTS if eu != 2 else configs.HEAT_PLANTS)]
     for rep in range(ctx.n(2, 12)):
-        for eu, pl in cells:
+        for eu, pl in cells + [(2, 5), (2, 6), (2, 9)]:       # the direct-use plants twice per round
             dh = pl == 7
-            if dh and rep >= ctx.n(1, 3):
-                continue
-            life = rnd.choice([1, 2, 3] if dh else lives)
+            if dh and rep >= ctx.n(2, 4):
+                continue                                       # district heating costs 2-4 s per run
+            life = rnd.choice([2, 3] if dh else lives)
             tspy = rnd.choice([1, 2, 4, 12]) if rep else [1, 2, 4, 12][(eu + pl) % 4]
             if life * tspy > ctx.n(60, 400):
                 tspy = 1
             resm = rnd.choice([3, 4, 4] if ctx.quick or rep % 4 else [1, 2])
-            runs.append((f'cell:eu{eu}:plant{pl}:{rep}',
-                         runner.params_to_text(configs.synthetic(rnd, enduse=eu, plant=pl, life=life, tspy=tspy, resmodel=resm, **_opts(rnd)))))
+            opts = dict(addons=False, overpressure=False) if dh else _opts(rnd)
+            runs.append((f'cell:eu{eu}:plant{pl}:{rep}:{len(runs)}',
+                         runner.params_to_text(configs.synthetic(rnd, enduse=eu, plant=pl, life=life, tspy=tspy, resmodel=resm, **opts))))
     for i in range(ctx.n(12, 150)):     # long series, add-ons
         eu = rnd.choice(configs.ENDUSES)
         pl = rnd.choice(configs.ELEC_PLANTS if eu != 2 else [5, 6, 9])
@@ -547,9 +548,10 @@ def replay(ctx, data):
         R = run_terms(r['snap'])
         names = [n for n, _ in R.clauses]
         bad = {names[i] for i in _kernel_bools(ctx, 'replay', [R.term(only=n) for n in names], shard=4)}
-        print(f'{R.cls}, end-use {R.eu}, lifetime {R.life}, {R.k} steps/year; in-place offsets by: {R.findings or "none"}')
+        print(f'{R.cls}, end-use {R.eu}, lifetime {R.life}, {R.k} steps/year; in-place offsets of the annual figures by: '
+              f'{R.findings or "none"} (year 1: electricity {R.offs[0]:+.6g} kWh, heat {R.offs[1]:+.6g} kWh)')
         for n in names:
-            print(f'  clause {n:28s} {"VIOLATED" if n in bad else "holds"}   ({CLAUSE_WHAT[n]})')
+            print(f'  clause {n:28s} {"VIOLATED" if n in bad else "holds   "}  {CLAUSE_WHAT[n].replace("!=", "==")}')
         stated = bool(bad) or bool(R.findings)
         if R.findings and not bad:
             print('  faithful model (integral + offset) agrees; the stated clause annual == integral x utilization is VIOLATED by the offset')
